@@ -2,9 +2,9 @@
 (* Design level of the symmetry analysis against its definition level: for every model of a small catalogue and     *)
 (* every list of candidate integrals of motion drawn from a catalogue, the partition built from the ACCEPTED         *)
 (* candidates is sound (blocks without gaps, H block diagonal, every c, c^+, c^+c maps a block into at most one      *)
-(* block, bimaps faithful).  Linear candidates only in the main configuration; the configuration "NonLinear" adds    *)
-(* products n_i n_j and shows the unsoundness recorded as known finding F14.                                         *)
-EXTENDS Symmetry
+(* block, bimaps faithful).  Linear candidates and the fermion parity in the main configuration; the configuration     *)
+(* "NonLinear" adds products n_i n_j and shows the unsoundness recorded as known finding F14.                        *)
+EXTENDS Symmetry, SequencesExt
 CONSTANT AllowNonLinear
 VARIABLES model, cands
 
@@ -26,7 +26,14 @@ Linear(M) == { <<<<1, 1, <<i>>>>>> : i \in 0..(M - 1) } \cup
              { [i \in 1..M |-> <<i, 1, <<i - 1>>>>] } \cup              \* sum i n_i
              { [i \in 1..M |-> <<1, 10, <<i - 1>>>>] }                   \* N/10
 NonLinear(M) == { <<<<1, 1, <<i, j>>>>>> : i, j \in 0..(M - 1) } \ { <<<<1, 1, <<i, i>>>>>> : i \in 0..(M - 1) }
-Pool(M) == Linear(M) \cup (IF AllowNonLinear THEN NonLinear(M) ELSE {})
+\* the fermion parity (-1)^N = prod_i (1 - 2 n_i): conserved by every H with an even number of operators per term, NOT linear in the n_i
+\* (and its linear part 1 - 2N is not conserved by the pair-field model); c and c^+ flip it, so it keeps every field operator single-target --
+\* unlike the products n_i n_j, which the "NonLinear" configuration shows to be unsound
+RECURSIVE Pow(_, _)
+Pow(b, k) == IF k = 0 THEN 1 ELSE b * Pow(b, k - 1)
+Parity(M) == LET subs == SetToSeq(SUBSET (0..(M - 1))) IN
+             [k \in 1..Len(subs) |-> <<Pow(-2, Cardinality(subs[k])), 1, SetToSortSeq(subs[k], LAMBDA a, b : a < b)>>]
+Pool(M) == Linear(M) \cup {Parity(M)} \cup (IF AllowNonLinear THEN NonLinear(M) ELSE {})
 Init == /\ model \in 1..Len(Models)
         /\ \/ cands = <<"default">>
            \/ cands = <<"ignore">>
@@ -42,4 +49,6 @@ Accepted == CASE cands[1] = "default" -> Filter(HM, DefaultCandidates(Mo.spins),
 Blk == BlocksOf(Accepted, Mo.M)
 IsSound == Sound(HM, Blk, Mo.M)
 HHermitian == Hermitian(HM)
+\* non-vacuity: the parity is accepted for every model of the catalogue (and then splits the Fock space into the even and the odd block)
+ParityAccepted == cands = <<"custom", <<Parity(Mo.M)>>>> => Len(Accepted) = 1 /\ NBlocks(Blk) = 2
 =============================================================================
